@@ -13,12 +13,13 @@ Hand model of the read-only surface of the automation facade (C11):
   item outside the block (`struct.error`) or mixes types (`TypeError` / `ValueError`).  A stored value outside an
   enumeration's label list reads as "Unknown" (`Item.decodeRaw`), which is not an error.
 * All constants (`DEVICES`, `SENSORS`, `BINARY_SENSORS`, watercare labels, key names, heater constants, reminder names) and the
-  comparison operator of the watercare range guard come from `Generated/FacadeConsts.lean`, regenerated from the working
+  comparison operator of the watercare range guard come from `Generated/FacadeConsts.lean` / `Generated/FacadeFacts.lean`, regenerated from the working
   tree on every run.  The rest is tied to the code by the reflective correspondence of `harness/props/c11.py`.
 
 Core Lean only.
 -/
 import GeckoModel.Model.FacadeReq
+import GeckoModel.Generated.FacadeFacts
 
 namespace GeckoModel.Facade
 open GeckoModel
